@@ -427,6 +427,59 @@ SQL_CMDS = [k for k, v in CMDS.items() if not v.get("hcl_only")]
 HCL_CMDS = [k for k, v in CMDS.items() if v.get("hcl_only")]
 
 
+# --------------------------------------------------------------------------------------------------
+# inputs that hold nothing to replay
+#   kinds: 'mig' = migration directory, 'sdir' = SQL schema directory, 'sql' = a.sql + b.sql, 'hcl' = schema.hcl + other.hcl
+# --------------------------------------------------------------------------------------------------
+
+EMPTY_VARIANTS = {
+    "mig": ["none", "sum-only", "readme-only", "readme+sum"],
+    "sdir": ["none", "readme-only"],
+    "sql": ["empty-file", "comment-only"],
+    "hcl": ["empty-file", "schema-only"],
+}
+EMPTY_TEXT = {"empty-file": "", "comment-only": "-- nothing to see here\n", "schema-only": 'schema "main" {\n}\n'}
+SLOT_KIND = {"dir": "mig", "a": "sql", "b": "sql", "sdir": "sdir"}
+HCL_READERS = ("diff-hcl", "sdiff-dir-hcl", "apply-hcl", "sdiff-hcl-hcl", "inspect-hcl")
+NO_FILES_MSG = "contains neither SQL nor HCL files"
+
+
+def empty_kinds(cmd):
+    ks = []
+    for s in CMDS[cmd]["slots"]:
+        if SLOT_KIND[s] not in ks:
+            ks.append(SLOT_KIND[s])
+    if cmd in HCL_READERS:
+        ks.append("hcl")
+    return ks
+
+
+def empty_combos(cmd):
+    """Every variant of every input kind the command reads, one kind at a time, plus all kinds empty at once."""
+    ks = empty_kinds(cmd)
+    out = [{k: v} for k in ks for v in EMPTY_VARIANTS[k]]
+    if len(ks) > 1:
+        out.append({k: EMPTY_VARIANTS[k][0] for k in ks})
+        out.append({k: EMPTY_VARIANTS[k][-1] for k in ks})
+    return out
+
+
+def empty_expect(cmd, empty):
+    """What the unchanged CLI does with a dev database that is not empty when the input `empty` holds nothing
+    (measured, see notes/C14-findings.md round 5): the source a command loads FIRST decides. A directory without
+    any .sql / .hcl file given as a *schema* is rejected before the dev database is opened ('no-files'); every
+    other first source (an empty or comment-only SQL file, a migration directory without migration files for
+    migrate validate / lint / diff, a populated source) makes the command open the dev database => 'refuse'."""
+    c = CMDS[cmd]
+    if c.get("hcl_only"):
+        return None
+    order = c["slots"] if c["family"] != "diff" else list(reversed(c["slots"]))  # migrate diff loads --to first
+    kind = SLOT_KIND[order[0]]
+    if kind in empty and (kind == "sdir" or (kind == "mig" and c["family"] in ("apply", "sdiff", "inspect"))):
+        return "no-files"
+    return "refuse"
+
+
 def argv(cmd, src, dev_url, target, late=None):
     a = _argv(cmd, src, dev_url, target)
     if late == "exclude-glob":
